@@ -51,6 +51,7 @@ MODEL_FAULT_ORDER = ["readmain", "parse", "mkdtemp", "mkdir", "writemain", "writ
 PIO_HOW = {"absent": 0, "noexec": 1, "badformat": 2, "notdir": 3, "exit": 4}
 EXEC_FAIL_STATES = ("absent", "noexec", "badformat", "notdir")     # pio cannot be started at all
 XKINDS = ["absent", "noexec", "badformat", "notdir"]
+FKINDS = ["perm", "nospc", "notfound", "rofs"]          # which OSError an injected file-system failure is
 # ports inside the guard of C13's round trip (no line break, no blank padding): device paths, URLs,
 # blanks inside, INI delimiters / comment characters / brackets / %, empty, non-ASCII
 PORTS_MORE = ["/dev/cu.usbmodem14201", "COM12", "/dev/tty.usbserial A9", "rfc2217://192.168.0.7:4000", "socket://host:23",
@@ -79,7 +80,11 @@ def fault_vectors(thorough: bool):
     """thorough: all 2^7 subsets of the injectable fault points; quick: all subsets of size <= 2,
     a few triples and the full set (smallest first, so the first failure reported is the simplest)"""
     if thorough:
-        return [list(c) for n in range(len(FAULTS) + 1) for c in itertools.combinations(FAULTS, n)]
+        out = [list(c) for n in range(len(FAULTS) + 1) for c in itertools.combinations(FAULTS, n)]
+        # ... and every vector of size <= 3 over all nine points that has pio not startable at the build / upload
+        allf = FAULTS + ["buildexec", "uploadexec"]
+        out += [list(c) for n in range(1, 4) for c in itertools.combinations(allf, n) if "buildexec" in c or "uploadexec" in c]
+        return out
     out = [list(c) for n in range(3) for c in itertools.combinations(FAULTS, n)]
     out += [["readmain", "mkdtemp", "build"], ["mkdir", "writeini", "upload"], ["writemain", "build", "upload"], list(FAULTS)]
     return out
@@ -95,7 +100,8 @@ def scenarios(thorough: bool, more_valid=()):
                     for pio in (False, True):
                         out.append({"script": script, "port": PORTS[(i + j + k) % 2], "platform": pl, "board": b,
                                     "upload": upload, "pio": pio, "faults": list(fv),
-                                    "rc": FAIL_RCS[(i + 2 * j + k + int(upload)) % len(FAIL_RCS)]})
+                                    "rc": FAIL_RCS[(i + 2 * j + k + int(upload)) % len(FAIL_RCS)],
+                                    "fkind": FKINDS[(i + j + 3 * k) % len(FKINDS)]})
     return out
 
 
@@ -115,7 +121,7 @@ def extra_scenarios(thorough, plats, rng):
 
     def add(stream, **kw):
         sc = {"script": "led", "port": PORTS[n[0] % 2], "platform": "atmelavr", "board": "uno", "upload": True, "pio": True,
-              "faults": [], "rc": FAIL_RCS[n[0] % len(FAIL_RCS)], "xkind": XKINDS[n[0] % len(XKINDS)], "stream": stream}
+              "faults": [], "rc": FAIL_RCS[n[0] % len(FAIL_RCS)], "xkind": XKINDS[n[0] % len(XKINDS)], "fkind": FKINDS[(n[0] // 3) % len(FKINDS)], "stream": stream}
         sc.update(kw)
         n[0] += 1
         out.append(sc)
@@ -193,7 +199,7 @@ def extra_scenarios(thorough, plats, rng):
 
 def sc_key(sc):
     return (sc["script"], sc["port"], sc["platform"], sc["board"], sc["upload"], pio_state(sc["pio"]), tuple(sc["faults"]),
-            sc.get("locale") or "utf-8", sc.get("rc"), sc.get("xkind"))
+            sc.get("locale") or "utf-8", sc.get("rc"), sc.get("xkind"), sc.get("fkind"))
 
 
 def model_case(sc, expected=None):
@@ -468,8 +474,8 @@ def run(ctx: C.Ctx):
     ctx.coverage.update({
         "evaluations": len(cases),
         "distinct_nontrivial": sum(1 for sc in cases if is_valid_pair(plats, sc["platform"], sc["board"])),
-        "rule": "exhaustive product: fault vectors (quick: every subset of size <= 2, three triples and the full set; thorough: all 2^7 subsets of "
-                "{readmain, mkdtemp, mkdir, writemain, writeini, build failing, upload failing - exit status rotating over 1, 2, 127 and signal deaths -9, -15}) x 8 scripts (parallel+I2C LCD, Servo+both LCDs, LED blink, empty, Servo+parallel LCD, "
+        "rule": "exhaustive product: fault vectors (quick: every subset of size <= 2, three triples and the full set; thorough: all 2^7 subsets, plus every vector of size <= 3 that also has pio not startable at the build / upload, of "
+                "{readmain, mkdtemp, mkdir, writemain, writeini (the injected OSError rotating over PermissionError, ENOSPC, FileNotFoundError, EROFS), build failing, upload failing - exit status rotating over 1, 2, 127 and signal deaths -9, -15}) x 8 scripts (parallel+I2C LCD, Servo+both LCDs, LED blink, empty, Servo+parallel LCD, "
                 "two Servos+I2C LCD, non-ASCII comment, one the transpiler rejects with ValueError = the parse fault) x (platform, board) pairs "
                 "(2 valid on both platforms, unknown platform, unknown board, 2 mismatched, near-miss names) x upload x PlatformIO present/absent; "
                 "non-trivial = the pair is valid, so the call gets past validation; every scenario goes through the model correspondence and the oracle. "
